@@ -445,11 +445,19 @@ def check_segment_kinds(chk, tu):
         leafs.update({'wasmReadConstantExpr': const_expr, 'wasmReadBytes': read_bytes})
         it = pe.Interp([tu], leafs)
         it.loop_abort = True
-        paths = [p for p in it.explore(setup) if not p.aborted]
+        try:
+            paths = [p for p in it.explore(setup) if not p.aborted]
+        except emit.ScriptMismatch as e:
+            chk.fail('R08.5', 'kind%d:decoders' % kind, 'data segment kind %d: %s - the segment fields are u32 LEB128 values; read otherwise, a padded '
+                     'encoding of the same segment is rejected or decoded differently' % (kind, e), fname)
+            results[kind] = ([], [])
+            continue
         ok_paths = [p for p in paths if p.state['err']['v'] == 0]
         results[kind] = (paths, ok_paths)
     site = fname
     for kind in (0, 1, 2):
+        if not results[kind][0]:
+            continue
         chk.expect(len(results[kind][1]) == 1, 'R08.5', 'kind%d:accepted' % kind,
                    'data segment kind %d: %d successful paths of %d' % (kind, len(results[kind][1]), len(results[kind][0])), site)
     chk.expect(len(results[3][1]) == 0, 'R08.5', 'kind3:rejected', 'data segment kind 3 is accepted', site)
